@@ -132,24 +132,6 @@ mod verif_kani {
         core::mem::forget(r);
     }
 
-    /// a map key that is not a string is an error (never a panic); the check happens before any insertion
-    struct BadKey;
-    impl Serialize for BadKey {
-        fn serialize<S: Serializer>(&self, s: S) -> core::result::Result<S::Ok, S::Error> {
-            let mut m = s.serialize_map(Some(1))?;
-            m.serialize_key(&1u8)?;
-            m.serialize_value(&2u8)?;
-            m.end()
-        }
-    }
-    #[kani::proof]
-    #[kani::unwind(40)]
-    fn shape_non_string_key() {
-        let r = BadKey.serialize(ValueSerializer);
-        assert!(r.is_err(), "unsupported map key must be an error");
-        core::mem::forget(r);
-    }
-
     /// a Serialize impl that fails through S::Error::custom yields Err (never the todo!() panic)
     struct Fails;
     impl Serialize for Fails {
@@ -183,14 +165,4 @@ mod verif_kani {
         core::mem::forget(r);
     }
 
-    /// the element error of a sequence is propagated, not swallowed   (BOUNDED: fixed length 2)
-    #[kani::proof]
-    #[kani::unwind(8)]
-    fn shape_seq_error() {
-        let big: u128 = kani::any();
-        kani::assume(big > i128::MAX as u128);
-        let r = (1u8, big).serialize(ValueSerializer);
-        assert!(r.is_err());
-        core::mem::forget(r);
-    }
 }
